@@ -113,7 +113,9 @@ def build(draw, d, prof, name):
     if name in NEEDS_PROVIDER and not d.providers:
         name = 'create_rp'
     defect = None
-    if name in DEFECTS and draw(st.integers(0, 9)) < prof.defect_rate:
+    rate = min(prof.defect_rate, 1) if name == 'create_rp' \
+        else prof.defect_rate
+    if name in DEFECTS and draw(st.integers(0, 9)) < rate:
         defect = draw(st.sampled_from(DEFECTS[name]))
     if name == 'create_rp':
         return gen.create_rp(draw, d, v, defect=defect)
